@@ -94,7 +94,8 @@ func (s *scenario) randomOp(r *rng, allowClose bool) []int {
 	id := 1 + r.intn(s.nids)
 	switch r.intn(14) {
 	case 0, 1, 2, 3:
-		return []int{1, id, r.rangeIn(1, 8)}
+		// (one in nine: a "never" deadline, thousands of years away)
+		return []int{1, id, r.pick([]int{1, 2, 3, 4, 5, 6, 7, 8, 4000000000000000000})}
 	case 4, 5, 6:
 		return []int{2, id, r.pick([]int{0, 0, 0, 5, 9})}
 	case 7, 8:
